@@ -203,19 +203,32 @@ def check_all(ctx, facts):
             else:
                 src = prov.of_operand(name_fn, name_op)
                 tn = [v for o in src for v in o.via if v[0] == "call" and v[1].endswith("::type_name_of")]
+                std_tn = [v for o in src for v in o.via if v[0] == "call" and re.search(r"core::any::type_name(_of_val)?$", v[1])]
                 ok = False
                 detail = "name does not come from func_path!()"
+                parent, f_ok, fdesc = None, False, None
                 if tn:
                     callee = tn[0][1]
                     parent = callee[:-len("::type_name_of")]
                     call_t = name_fn.term(tn[0][2])
                     farg = call_t["args"][0]
                     f_ok = farg["k"] == "const" and farg.get("fn") == parent + "::f"
+                    fdesc = farg.get("fn")
+                elif std_tn:
+                    # std::any::type_name_of_val(&f) / type_name::<F>(): the function item is the type argument
+                    call_t = name_fn.term(std_tn[0][2])
+                    m = [re.search(r"\{([^{}]*(?:\{\{closure\}\}[^{}]*|\{closure#\d+\}[^{}]*)*::f)\}$", ta) for ta in call_t.get("targs", [])]
+                    m = [x for x in m if x]
+                    if m:
+                        fdesc = m[0].group(1)
+                        parent = fdesc[:-len("::f")]
+                        f_ok = True
+                if parent is not None:
                     sliced = any(v[0] == "call" and re.search(r"Index(<.*>)?( for str)?>?::index$", v[1]) for o in src for v in o.via) and \
                         any(v[0] == "binop" and v[1] in ("SubWithOverflow", "Sub") and v[2] == 3 for o in
                             [x for b in name_fn.calls_re(r"Index(<.*>)?( for str)?>?::index$") for x in prov.of_operand(name_fn, name_fn.term(b)["args"][1])] for v in o.via)
                     ok = f_ok and sliced and parent == name_fn.path
-                    detail = "type_name_of(%s) in %s, `::f` suffix sliced off: %s" % (farg.get("fn"), parent, sliced)
+                    detail = "type name of %s in %s, `::f` suffix sliced off: %s" % (fdesc, parent, sliced)
                 ctx.check(ok, "R4", tp, tf.span,
                           "the default name is func_path!() evaluated in the function that opens the span (for an async fn: its async body, "
                           "hence the trailing ::{{closure}})", detail, detail, extra="name")
